@@ -1561,6 +1561,33 @@ struct MShared {
   fired: RefCell<Vec<(usize, usize)>>,
 }
 
+fn m_react(s1: &Rc<MShared>, k: usize, n: usize) {
+  let rs = s1.recorders[k].clone();
+  for (ri, r) in rs.iter().enumerate() {
+    if r.at == n {
+      match &r.what {
+        React::UnsubSelf => {
+          let d = s1.subs.borrow()[k].clone();
+          if let Some(d) = d {
+            s1.fired.borrow_mut().push((k, ri));
+            d.dispose(Cause::Unsub);
+          }
+        }
+        React::Emit(i, ev) => {
+          s1.fired.borrow_mut().push((k, ri));
+          s1.env.emit(*i, ev);
+        }
+        React::Subscribe(j) => {
+          if !s1.started.borrow()[*j] {
+            s1.fired.borrow_mut().push((k, ri));
+            m_subscribe(s1, *j);
+          }
+        }
+      }
+    }
+  }
+}
+
 fn m_subscribe(sh: &Rc<MShared>, k: usize) {
   if sh.started.borrow()[k] {
     return;
@@ -1572,33 +1599,16 @@ fn m_subscribe(sh: &Rc<MShared>, k: usize) {
       s1.traces.borrow_mut()[k].push(Rk::N(p.clone()));
       let n = s1.ncount.borrow()[k];
       s1.ncount.borrow_mut()[k] = n + 1;
-      let rs = s1.recorders[k].clone();
-      for (ri, r) in rs.iter().enumerate() {
-        if r.at == n {
-          match &r.what {
-            React::UnsubSelf => {
-              let d = s1.subs.borrow()[k].clone();
-              if let Some(d) = d {
-                s1.fired.borrow_mut().push((k, ri));
-                d.dispose(Cause::Unsub);
-              }
-            }
-            React::Emit(i, ev) => {
-              s1.fired.borrow_mut().push((k, ri));
-              s1.env.emit(*i, ev);
-            }
-            React::Subscribe(j) => {
-              if !s1.started.borrow()[*j] {
-                s1.fired.borrow_mut().push((k, ri));
-                m_subscribe(&s1, *j);
-              }
-            }
-          }
-        }
-      }
+      m_react(&s1, k, n);
     },
-    move |c| s2.traces.borrow_mut()[k].push(Rk::E(c)),
-    move || s3.traces.borrow_mut()[k].push(Rk::C),
+    move |c| {
+      s2.traces.borrow_mut()[k].push(Rk::E(c));
+      m_react(&s2, k, AT_TERMINAL);
+    },
+    move || {
+      s3.traces.borrow_mut()[k].push(Rk::C);
+      m_react(&s3, k, AT_TERMINAL);
+    },
   );
   let d = Disp::new();
   d.add_obs(&o);
